@@ -506,6 +506,40 @@ impl Fam for BTreeMap<String, BTreeMap<String, Vec<BTreeMap<String, i64>>>> {
     }
 }
 
+/// a newtype STRUCT at the root (serializers see through it; the document deserializer must as well)
+#[derive(Serialize, Deserialize, PartialEq, Debug, Clone)]
+pub struct RootNewt(pub Inner);
+impl Fam for RootNewt {
+    const NAME: &'static str = "newtype struct RootNewt(Inner) at the root";
+    fn all(_tier: Tier) -> Vec<Self> {
+        inners().into_iter().map(RootNewt).collect()
+    }
+}
+#[derive(Serialize, Deserialize, PartialEq, Debug, Clone)]
+pub struct RootNewtMap(pub BTreeMap<String, NewtI>);
+impl Fam for RootNewtMap {
+    const NAME: &'static str = "newtype struct RootNewtMap(Map<String, NewtI>) at the root";
+    fn all(_tier: Tier) -> Vec<Self> {
+        maps(&["a", "b c"], &[NewtI(0), NewtI(-7)]).into_iter().map(RootNewtMap).collect()
+    }
+}
+/// an externally tagged enum at the root whose newtype variants hold tables: `[V1]` ...
+#[derive(Serialize, Deserialize, PartialEq, Debug, Clone)]
+pub enum RootEnum {
+    V1(Inner),
+    V2(BTreeMap<String, i64>),
+    Third(Newt),
+}
+impl Fam for RootEnum {
+    const NAME: &'static str = "enum RootEnum { V1(Inner), V2(Map), Third(Newt) } at the root";
+    fn all(_tier: Tier) -> Vec<Self> {
+        let mut v: Vec<RootEnum> = inners().into_iter().map(RootEnum::V1).collect();
+        v.extend(maps(&["a", "V1"], &[0i64, 5]).into_iter().map(RootEnum::V2));
+        v.extend(inners().into_iter().take(4).map(|i| RootEnum::Third(Newt(i))));
+        v
+    }
+}
+
 pub trait Check: Sync {
     fn check<T: Fam>(&self, v: &T, acc: &mut Acc);
 }
@@ -542,6 +576,9 @@ pub fn run_family<C: Check>(c: &C, tier: Tier) -> (Acc, Vec<(String, usize)>) {
     run_one::<E, C>(c, tier, &mut total, &mut sizes);
     run_one::<Vec<Inner>, C>(c, tier, &mut total, &mut sizes);
     run_one::<Inner, C>(c, tier, &mut total, &mut sizes);
+    run_one::<RootNewt, C>(c, tier, &mut total, &mut sizes);
+    run_one::<RootNewtMap, C>(c, tier, &mut total, &mut sizes);
+    run_one::<RootEnum, C>(c, tier, &mut total, &mut sizes);
     run_one::<BTreeMap<String, BTreeMap<String, Vec<BTreeMap<String, i64>>>>, C>(c, tier, &mut total, &mut sizes);
     (total, sizes)
 }
